@@ -81,6 +81,8 @@ class LoopMixin:
         return self.iter_desc_val(v, st)
 
     def iter_desc_val(self, v, st):
+        if v.ty.name == "Opt":
+            v = self.unopt(v, st, None, "TypeError")
         if v.ty.name == "List":
             if v.ty.args[0] is None:
                 return IterDesc(lambda s: z3.IntVal(0), lambda s, k: NONE_VAL)
@@ -241,6 +243,8 @@ class LoopMixin:
         # 1. invariant holds on entry
         if is_for:
             st.env[idx] = mk_int(0)
+        st.ghost = dict(st.ghost)
+        st.ghost["__loop_entry__"] = st.copy()
         for k, inv in enumerate(invs):
             self.oblige(st, f"{tag}/init#{k}", self.spec_truth(inv, st.env, st), clause=inv, site=node.lineno)
 
@@ -282,6 +286,8 @@ class LoopMixin:
                                    patterns=[z3.Select(new, rr)]))
                 if key == "List.len":
                     h.assume(z3.ForAll([rr], z3.Select(new, rr) >= 0, patterns=[z3.Select(new, rr)]))
+                if len(keep) == 1:
+                    self.region_havoc[new.get_id()] = (arr, st.alloc)
                 h.heap[key] = new
                 closed_later.append((key, new))
             elif refs and key not in lc.get("modifies", []) and all(
@@ -443,7 +449,8 @@ class LoopMixin:
                 outs = outs2
             for o in outs:
                 for key, arr in o.heap.items():
-                    if before.get(key) is not arr and not (key in before and before[key].eq(arr)):
+                    b0 = before.get(key, self.init_heap.get(key))      # a field first *read* in the body is not a write
+                    if b0 is not arr and not (b0 is not None and b0.eq(arr)):
                         keys.add(key)
                 if o.alloc is not alloc0 and not o.alloc.eq(alloc0):
                     allocates = True
@@ -586,6 +593,8 @@ class CompMixin:
                 c = self.contract_of(fi.qualname)
                 if c is not None and set(c["modifies"]) <= {"alloc"}:
                     return self.comp_map_contract(e, g, desc, fi, c, f, st)
+                if c is not None and self.own_element_effects(c, fi, f, elt, g) is not None:
+                    return self.comp_map_contract(e, g, desc, fi, c, f, st, own=self.own_element_effects(c, fi, f, elt, g))
         sub = st.copy()
         sub.env = dict(st.env)
         sub.guards = list(st.guards) + [z3.And(0 <= j, j < n)]
@@ -604,7 +613,30 @@ class CompMixin:
         items = self.def_array(st, j, to_sort_term(v, v.ty))
         return self.new_list(v.ty, st, n, items)
 
-    def comp_map_contract(self, e, g, desc, fi, c, f, st):
+    def own_element_effects(self, c, fi, f, call, g):
+        """modifies of the callee limited to `alloc` and the data dict of the comprehension's own element:
+        returns the list of (param, field) pairs, or None."""
+        if not isinstance(g.target, ast.Name):
+            return None
+        params = list(fi.params)
+        if f.t[0] == "bound":
+            params = params[1:]
+        own = []
+        for m in c["modifies"]:
+            if m == "alloc":
+                continue
+            if "." not in m:
+                return None
+            p, fld = m.split(".", 1)
+            if p not in params or fld != "data":
+                return None
+            k = params.index(p)
+            if k >= len(call.args) or not (isinstance(call.args[k], ast.Name) and call.args[k].id == g.target.id):
+                return None
+            own.append((p, fld))
+        return own
+
+    def comp_map_contract(self, e, g, desc, fi, c, f, st, own=()):
         n = desc.length(st)
         j = fresh("lc_j", I)
         rng = z3.And(0 <= j, j < n)
@@ -627,20 +659,50 @@ class CompMixin:
         na = st.alloc
         for wf in c.get("writes_fresh", []):
             self.havoc_fresh_region(wf, alloc0, st)
+        if own:
+            # "parallel map": every call writes only the data dict of its own element.  With pairwise distinct
+            # dicts (obligation) each call sees its own dict in the initial state, so the callee's postcondition,
+            # read against the state before the comprehension, holds for every index (assumption A-PARMAP: the
+            # callee's postcondition depends on no other dict).
+            self.used_assumptions.add("A-PARMAP")
+            j2 = fresh("lc_k", I)
+            el = desc.elem(pre, j)
+            el2 = desc.elem(pre, j2)
+            d1 = pre.read(f"{el.ty.args[0]}.data", I, el.t)
+            d2 = pre.read(f"{el.ty.args[0]}.data", I, el2.t)
+            self.oblige(st, f"call:{short}/distinct-elements",
+                        z3.ForAll([j, j2], z3.Implies(z3.And(0 <= j, j < j2, j2 < n), d1 != d2)),
+                        clause="the data dicts of the elements are pairwise distinct")
+            mkey = self._map_key(JV)
+            marr = st.field(mkey, z3.ArraySort(S, opt_sort(JVSort).sort))
+            st.set_field_array(mkey, fresh("pm_map", marr.sort()))
         rty = parse_type(c["returns"])
         R = fresh("lc_items", z3.ArraySort(I, sort_of(rty)))
+        # the result list object is allocated before the per-element facts are stated, so that they are read
+        # against the same heap as later specifications
+        out_list = self.new_list(rty, st, n, R)
         res = from_sort_term(z3.Select(R, j), rty)
         qenv = dict(penv)
         qenv["result"] = res
-        facts = [z3.And(z3.Select(R, j) >= alloc0, z3.Select(R, j) < na)] if is_reflike(rty) else []
-        for en in c["ensures"]:
+        facts = [z3.And(z3.Select(R, j) >= alloc0, z3.Select(R, j) < na)] if (is_reflike(rty) and not own) else []
+        for k_, en in enumerate(c["ensures"]):
+            if k_ in c.get("internal_ensures", ()):
+                continue
             facts.append(self.spec_truth(en, qenv, st, old=pre))
-        st.assume(z3.ForAll([j], z3.Implies(rng, z3.And(*facts)), patterns=[z3.Select(R, j)]))
-        if is_reflike(rty):
+        pats = [z3.Select(R, j)]
+        try:
+            el = desc.elem(pre, j)
+            et = el.t if z3.is_expr(el.t) else None
+            if et is not None and z3.is_select(et):
+                pats.append(et)          # also trigger on a read of the j-th source element
+        except Exception:
+            pass
+        st.assume(z3.ForAll([j], z3.Implies(rng, z3.And(*facts)), patterns=pats))
+        if is_reflike(rty) and not own:
             j2 = fresh("lc_k", I)
             st.assume(z3.ForAll([j, j2], z3.Implies(z3.And(0 <= j, j < j2, j2 < n), z3.Select(R, j) != z3.Select(R, j2))))
         st.assume(n >= 0)
-        return self.new_list(rty, st, n, R)
+        return out_list
 
     def comp_filter(self, e, g, desc, st):
         """[elt for x in xs if p]: ghost strictly increasing index map m with
@@ -655,7 +717,8 @@ class CompMixin:
         def at(idx):
             sub = st.copy()
             sub.env = dict(st.env)
-            sub.spec = True
+            sub.ghost = dict(sub.ghost)
+            sub.ghost["__pure_ctx__"] = True     # calls to functional contracts are replaced by their value
             self.assign(g.target, desc.elem(sub, idx), sub)
             conds = [self.truth(self.eval(c, sub), sub) for c in g.ifs]
             v, pure = self._pure_eval(e.elt, sub)
@@ -669,10 +732,24 @@ class CompMixin:
                                             z3.And(0 <= m(j), m(j) < n, p_m, minv(m(j)) == j)), patterns=[m(j)]))
         j2 = fresh("lc_k", I)
         st.assume(z3.ForAll([j, j2], z3.Implies(z3.And(0 <= j, j < j2, j2 < cnt), m(j) < m(j2)), patterns=[z3.MultiPattern(m(j), m(j2))]))
+        pats = [minv(i)]
+        try:
+            el = desc.elem(st, i)
+            et = el.t if z3.is_expr(el.t) else (el.t[0].t if el.ty.name == "Tuple" and el.t and z3.is_expr(el.t[0].t) else None)
+            if et is not None and z3.is_app(et) and et.num_args() > 0:
+                # also trigger on a read of the i-th source element
+                while z3.is_app(et) and et.num_args() == 1 and not z3.is_select(et):
+                    et = et.arg(0)
+                if z3.is_select(et):
+                    pats.append(et)
+        except Exception:
+            pass
         st.assume(z3.ForAll([i], z3.Implies(z3.And(0 <= i, i < n, p_i),
-                                            z3.And(0 <= minv(i), minv(i) < cnt, m(minv(i)) == i)), patterns=[minv(i)]))
+                                            z3.And(0 <= minv(i), minv(i) < cnt, m(minv(i)) == i)), patterns=pats))
         items = self.def_array(st, j, to_sort_term(v_m, v_m.ty))
         out = self.new_list(v_m.ty, st, cnt, items)
         out.x["sel"] = m
         out.x["pos"] = minv
+        st.ghost = dict(st.ghost)
+        st.ghost["g:lastfilter"] = out
         return out
